@@ -46,43 +46,43 @@ type AnchorAssert struct {
 }
 
 type Contract struct {
-	Kind       string   // func, iface, functype, trusted
-	Target     string   // function key
-	PkgPath    string   // package the contract file belongs to ("" for trusted specs)
-	ParamNames []string // for iface/functype/trusted: names given in header (receiver first)
-	ResNames   []string
-	Props      []string
-	Safety     []string // props owning the automatically generated safety obligations
-	SafetySet  bool
-	Requires   []*Clause
-	Ensures    []*Clause
-	Modifies   []Expr
-	ModSrc     []string
-	ModAll     bool // modifies *
-	HasMod     bool
-	Panics     []*Clause // may panic only if one of these holds
-	PanicsIff  bool
-	NoPanic    bool
-	Loops      map[int]*LoopSpec
-	Ghosts     []*GhostStmt
-	Asserts    []*AnchorAssert
-	Decreases  *Clause
-	Pure       bool // trusted: no heap effects, result is function of args (uninterpreted)
-	Inline     bool
-	NoOvf      bool
-	Skip       []string // safety classes not claimed for this function
-	CallAs     []*CallAs
-	Also       []string  // functype contracts this function must also satisfy
-	CapReq     []*Clause // preconditions on captured variables, asserted where the closure is created
-	Assumes    []*Clause // assumed in the function's own proof, not checked at call sites (listed as assumptions)
-	ModelParams []QVar // kind "model": typed parameters
+	Kind        string   // func, iface, functype, trusted
+	Target      string   // function key
+	PkgPath     string   // package the contract file belongs to ("" for trusted specs)
+	ParamNames  []string // for iface/functype/trusted: names given in header (receiver first)
+	ResNames    []string
+	Props       []string
+	Safety      []string // props owning the automatically generated safety obligations
+	SafetySet   bool
+	Requires    []*Clause
+	Ensures     []*Clause
+	Modifies    []Expr
+	ModSrc      []string
+	ModAll      bool // modifies *
+	HasMod      bool
+	Panics      []*Clause // may panic only if one of these holds
+	PanicsIff   bool
+	NoPanic     bool
+	Loops       map[int]*LoopSpec
+	Ghosts      []*GhostStmt
+	Asserts     []*AnchorAssert
+	Decreases   *Clause
+	Pure        bool // trusted: no heap effects, result is function of args (uninterpreted)
+	Inline      bool
+	NoOvf       bool
+	Skip        []string // safety classes not claimed for this function
+	CallAs      []*CallAs
+	Also        []string  // functype contracts this function must also satisfy
+	CapReq      []*Clause // preconditions on captured variables, asserted where the closure is created
+	Assumes     []*Clause // assumed in the function's own proof, not checked at call sites (listed as assumptions)
+	ModelParams []QVar    // kind "model": typed parameters
 	ModelRes    []QVar
-	Ovf        bool
-	Allocates  bool // trusted: may allocate
-	File       string
-	Line       int
-	Trusted    bool // from /verif/trusted (assumed)
-	Uses       []string
+	Ovf         bool
+	Allocates   bool // trusted: may allocate
+	File        string
+	Line        int
+	Trusted     bool // from /verif/trusted (assumed)
+	Uses        []string
 }
 
 // CallAs replaces the callee of a call site by a named model contract whose
@@ -95,12 +95,12 @@ type CallAs struct {
 }
 
 type GhostField struct {
-	Private bool // not affected by `modifies *` / unknown calls
-	Owner string // type expression text
-	OwnerT *TypeExpr
-	Name  string
-	T     *TypeExpr
-	Pkg   string
+	Private bool   // not affected by `modifies *` / unknown calls
+	Owner   string // type expression text
+	OwnerT  *TypeExpr
+	Name    string
+	T       *TypeExpr
+	Pkg     string
 }
 
 type Define struct {
@@ -134,13 +134,13 @@ type GlobalInv struct {
 }
 
 type ContractSet struct {
-	Funcs     map[string]*Contract // key: pkgpath + "::" + target for func; target for trusted/iface
-	Ghosts    []*GhostField
-	Defines   map[string]*Define
-	Axioms    []*AxiomDecl
-	Globals   []*GlobalInv
-	Files     []string
-	Order     []string
+	Funcs   map[string]*Contract // key: pkgpath + "::" + target for func; target for trusted/iface
+	Ghosts  []*GhostField
+	Defines map[string]*Define
+	Axioms  []*AxiomDecl
+	Globals []*GlobalInv
+	Files   []string
+	Order   []string
 }
 
 func NewContractSet() *ContractSet {
